@@ -1,13 +1,13 @@
 package verifsim
 
 import (
-	"os"
 	"context"
 	"encoding/json"
 	"errors"
 	"flag"
 	"fmt"
 	"math/rand"
+	"os"
 	"reflect"
 	"sort"
 	"strings"
@@ -54,6 +54,14 @@ spec:
         kind: Widget
 ` + extra
 }
+
+const lockYAML = `apiVersion: manifests.package-operator.run/v1alpha1
+kind: PackageManifestLock
+metadata:
+  creationTimestamp: "2024-01-01T00:00:00Z"
+spec:
+  images: []
+`
 
 func cmDoc(name, phase, val string) string {
 	return fmt.Sprintf("apiVersion: v1\nkind: ConfigMap\nmetadata:\n  name: %s\n  annotations:\n    package-operator.run/phase: %s\ndata:\n  v: %q\n", name, phase, val)
@@ -106,6 +114,22 @@ func Fixtures() map[string]fixture {
 		"img/kube1:v1": {"valid", packages.Files{
 			"manifest.yaml": []byte(manifestYAML("app", "  constraints:\n  - platformVersion:\n      name: Kubernetes\n      range: \">=1.20.0\"\n")),
 			"a.yaml":        []byte(cmDoc("cm1", "p1", "v1")),
+		}},
+		// structurally invalid manifests (duplicate phase name), without and with a lock file next to them; a valid
+		// package with a lock file
+		"img/dupphase:v1": {"objectInvalid", packages.Files{
+			"manifest.yaml": []byte(strings.Replace(manifestYAML("app", ""), "- name: p2", "- name: p1", 1)),
+			"a.yaml":        []byte(cmDoc("cm1", "p1", "v1")),
+		}},
+		"img/dupphase-locked:v1": {"objectInvalid", packages.Files{
+			"manifest.yaml":      []byte(strings.Replace(manifestYAML("app", ""), "- name: p2", "- name: p1", 1)),
+			"manifest.lock.yaml": []byte(lockYAML),
+			"a.yaml":             []byte(cmDoc("cm1", "p1", "v1")),
+		}},
+		"img/locked:v1": {"valid", packages.Files{
+			"manifest.yaml":      []byte(manifestYAML("app", "")),
+			"manifest.lock.yaml": []byte(lockYAML),
+			"a.yaml":             []byte(cmDoc("cm1", "p1", "v1")),
 		}},
 		"img/broken:v1": {"pullError", nil},
 		// a multi-component package: spec.component selects what is deployed ("" = the root)
